@@ -153,6 +153,10 @@ func eipVerify(
 		return nil, ErrInvalidHash
 	}
 
+	if len(signature) != crypto.SignatureLength {
+		return nil, ErrInvalidSignature
+	}
+
 	sig := make([]byte, len(signature))
 	copy(sig, signature)
 	if sig[64] >= 27 && sig[64] <= 28 {
